@@ -7,6 +7,7 @@ package keytab
 //@ func keytab.isNativeEndianLittle() (r)
 //@   trusted reads the byte order of the machine through unsafe.Pointer (outside the subset); true on amd64
 //@   pure
+//@   ensures r
 
 //@ func keytab.readInt8(b, p, e) (i, err)
 //@   requires *p <= len(b)
@@ -48,7 +49,21 @@ package keytab
 //@   modifies *p, ke.Principal, elems(ke.Principal.Components[len(ke.Principal.Components):cap(ke.Principal.Components)])
 //@   trusted_frame in-place appends to Components inside the loop need a slice-identity invariant; the frame is not used by a property
 //@   ensures 0 <= *p && *p <= len(b)
+//@   ensures err == nil ==> uint16(ke.Principal.NumComponents) == uint16(ite(kt.version == 1, kt_rd16(b, old(*p), e) - 1, kt_rd16(b, old(*p), e)))
 //@   loop 1 invariant 0 <= *p && *p <= len(b)
+//@   loop 1 invariant uint16(ke.Principal.NumComponents) == uint16(ite(kt.version == 1, kt_rd16(b, old(*p), e) - 1, kt_rd16(b, old(*p), e)))
+
+// C14 (round trip), the component count field: a version 1 file counts the realm as a component, so what
+// principal.marshal writes is what parsePrincipal turns back into NumComponents.
+//@ define kt_rd16(b, o, e) := ite(tagof(*e) == typeid("encoding/binary.bigEndian"), int16(uint16(b[o]) << 8 | uint16(b[o+1])), int16(uint16(b[o+1]) << 8 | uint16(b[o])))
+//@ define kt_ncfield(b, v) := ite(v == 1, uint16(b[1]) << 8 | uint16(b[0]), uint16(b[0]) << 8 | uint16(b[1]))
+//@ func keytab.marshalString(s, v) (b, err)
+//@   pure
+//@ func (keytab.principal).marshal(p, v) (b, err)
+//@   pure
+//@   ensures err == nil ==> len(b) >= 2 && kt_ncfield(b, v) == uint16(ite(v == 1, p.NumComponents + 1, p.NumComponents))
+//@   loop 1 invariant len(b) >= 2 && fresh(b)
+//@   loop 1 invariant kt_ncfield(b, v) == uint16(ite(v == 1, p.NumComponents + 1, p.NumComponents))
 //@ func (*keytab.Keytab).Unmarshal(kt, b) (err)
 //@   loop 1 invariant 0 <= n && n <= len(b)
 //@   loop 1 decreases len(b) - n
